@@ -56,6 +56,13 @@ def handle : List String → Verdict
           some s!"after {nS} edits (handler verdicts {flagsS}) the development text file is not the one for the last version: on disk {(disk.map Bytes.toHex).getD "nothing"}, expected {Bytes.toHex (textFile lits)}",
         nontrivial := nS != "1", tags := ["session", "session-steps:" ++ nS], sig := "session" }
     | none => .badOp
+  | ["txtname", name, realH, linkH] =>
+    match hexField realH, hexField linkH with
+    | some a, some b =>
+      { predfail := if a == b then none else
+          some s!"{name}: reached through a symbolic link the development text file has another name than through the real path (generator and running program would use different files)",
+        nontrivial := true, tags := ["txtname"], sig := "txtname" }
+    | _, _ => .badOp
   | ["live", round, phase, wantH, gotH] =>
     match hexField wantH, hexField gotH with
     | some want, some got =>
